@@ -2,7 +2,7 @@
    Input :  META nd {kind periodic period sigma width gperiodic expand hardlo hardup lower upper nx}*nd
                  weight hill_width freq gfreq use_grids keep wt bias_temp kb step_zero dumpgrid
                  ebmeta equil_steps ntarget target_1..target_ntarget
-                 nevents { S it rel cont x.. | W | R | L | B {lower upper nx}*nd }*nevents
+                 nevents { S it rel cont x.. | W | R | L | B {lower upper nx}*nd | C sigma*nd hillWidth weight freq }*nevents
             kind = 0 scalar (1 component), 1 3-vector, 2 unit vector (3 components), 3 quaternion (4); x.. = all components of
             all variables; W = the state is written (write_state_data); R = restart (state written, read by a fresh
             instance); B = restart with rebinGrids and the new boundaries
@@ -20,7 +20,7 @@ let rec all_indices (nx : int list) : int list list =
     List.concat (List.init (max n 0) (fun i -> List.map (fun t -> i :: t) tails))
 
 let hill_str (h : float hill) =
-  String.concat " " (string_of_int (int_of_z h.h_it) :: hex h.h_W :: List.map hex (List.concat h.h_c))
+  String.concat " " (string_of_int (int_of_z h.h_it) :: hex h.h_W :: List.map hex (List.concat h.h_c @ h.h_s))
 
 let () =
   try
@@ -41,9 +41,11 @@ let () =
                let per = nb () in let period = nf () in let sigma = nf () in let width = nf () in
                let gper = nb () in let expand = nb () in let hlo = nb () in let hup = nb () in
                let lower = nf () in let upper = nf () in let nx = ni () in
-               ({ v_kind = kind; v_periodic = per; v_period = period; v_sigma = sigma; v_width = width; v_gperiodic = gper;
-                  v_expand = expand; v_hard_lo = hlo; v_hard_up = hup },
+               (({ v_kind = kind; v_periodic = per; v_period = period; v_width = width; v_gperiodic = gper;
+                   v_expand = expand; v_hard_lo = hlo; v_hard_up = hup }, sigma),
                 { b_lower = lower; b_upper = upper; b_nx = z_of_int nx })) in
+           let sigmas = List.map (fun ((_, sg), _) -> sg) vg in
+           let vg = List.map (fun ((v, _), b) -> (v, b)) vg in
            let ncomp = List.map (fun (v, _) -> match v.v_kind with KScalar -> 1 | KQuat -> 4 | _ -> 3) vg in
            let weight = nf () in let hw = nf () in let freq = ni () in let gfreq = ni () in
            let ug = nb () in let keep = nb () in let wt = nb () in let bt = nf () in let kb = nf () in
@@ -58,33 +60,45 @@ let () =
                | _, _ -> 0 in
              let a = addr nxs ix in
              if a >= 0 && a < nt then tvals.(a) else 1.0 in
-           let c = { c_vars = List.map fst vg; c_geom0 = List.map snd vg; c_weight = weight; c_hill_width = hw;
+           let c = { c_vars = List.map fst vg; c_geom0 = List.map snd vg; c_sigmas = sigmas; c_weight = weight; c_hill_width = hw;
                      c_freq = z_of_int freq; c_gfreq = z_of_int gfreq; c_use_grids = ug; c_keep = keep; c_wt = wt;
                      c_bias_temp = bt; c_kb = kb; c_step_zero = sz; c_eb = eb; c_eb_equil = z_of_int equil;
                      c_eb_target = target } in
            let nev = ni () in
-           let st = ref (init_state fops c) in
+           let c = ref c in
+           let st = ref (init_state fops !c) in
            let outs = ref [] in
            for _ = 1 to nev do
              match next () with
-             | "W" -> st := save_state fops c !st
+             | "W" -> st := save_state fops !c !st
              | "P" ->
                (* write_pmf at temperature T: one value per bin, in the order of the array *)
                let temp = nf () in
                let idx = all_indices (List.map (fun bd -> int_of_z bd.b_nx) (!st).st_geom) in
-               outs := ("P " ^ String.concat " " (List.map (fun ix -> hex (pmf_value fops c !st temp (List.map z_of_int ix))) idx)) :: !outs
-             | "R" -> st := restart_state fops c !st None
-             | "L" -> st := reload_state fops c !st
+               (* pmf_value c s T ix = pmf_shift c T (grid_max (st_e s) (all_ix sizes)) (st_e s ix) by definition: the maximum
+                  is computed once here instead of once per bin *)
+               let s0 = !st in
+               let mx = grid_max fops s0.st_e (all_ix (List.map (fun bd -> bd.b_nx) s0.st_geom)) in
+               outs := ("P " ^ String.concat " " (List.map (fun ix -> hex (pmf_shift fops !c temp mx (s0.st_e (List.map z_of_int ix)))) idx)) :: !outs
+             | "R" -> st := restart_state fops !c !st None
+             | "L" -> st := reload_state fops !c !st
+             | "C" ->
+               (* a restart after which the job goes on with other widths, hillWidth, weight, frequency *)
+               let sg = List.init nd (fun _ -> nf ()) in
+               let hw' = nf () in let w' = nf () in let fr' = ni () in
+               let e = EReconf { p_sigmas = sg; p_hill_width = hw'; p_weight = w'; p_freq = z_of_int fr' } in
+               st := apply_event fops !c !st e;
+               c := next_cfg !c e
              | "B" ->
                let g' = List.init nd (fun _ ->
                    let lower = nf () in let upper = nf () in let nx = ni () in
                    { b_lower = lower; b_upper = upper; b_nx = z_of_int nx }) in
-               st := restart_state fops c !st (Some g')
+               st := restart_state fops !c !st (Some g')
              | _ ->
                let it = ni () in let rel = ni () in let cont = nb () in
                let x = List.map (fun n -> List.init n (fun _ -> nf ())) ncomp in
                let i = { i_it = z_of_int it; i_rel = z_of_int rel; i_cont = cont; i_x = x } in
-               let (s', (e, f)) = step fops c !st i in
+               let (s', (e, f)) = step fops !c !st i in
                st := s';
                let b = Buffer.create 256 in
                Buffer.add_string b (Printf.sprintf "S %s %s" (hex e) (String.concat " " (List.map hex (List.concat f))));
